@@ -10,6 +10,8 @@ mod keyring;
 
 mod env;
 mod fx;
+mod graph;
+mod minted;
 mod mon;
 mod proc;
 mod refspec;
@@ -18,6 +20,9 @@ mod streams;
 mod util;
 
 mod c01;
+mod c03;
+mod c04;
+mod c06;
 mod c10;
 mod c19;
 
@@ -29,13 +34,16 @@ static ALLOC: mon::Mon = mon::Mon;
 struct Check {
     id: &'static str,
     level: &'static str,
-    run: fn(&Report),
-    replay: fn(&Report, &serde_json::Value),
+    run: fn(&'static Report),
+    replay: fn(&'static Report, &serde_json::Value),
 }
 
 fn checks() -> Vec<Check> {
     vec![
         Check { id: "C01", level: "exploration", run: c01::run, replay: c01::replay },
+        Check { id: "C03", level: "model_checking", run: c03::run, replay: c03::replay },
+        Check { id: "C04", level: "model_checking", run: c04::run, replay: c04::replay },
+        Check { id: "C06", level: "exploration", run: c06::run, replay: c06::replay },
         Check { id: "C10", level: "fault_enumeration", run: c10::run, replay: c10::replay },
         Check { id: "C19", level: "exploration", run: c19::run, replay: c19::replay },
     ]
@@ -86,6 +94,10 @@ fn main() {
         }
         Err(e) => report::machinery(&e),
     }
+    if args[1] == "golden-write" {
+        c06::golden_write();
+        return;
+    }
     if args[1] == "list" {
         for c in checks() {
             println!("{} {}", c.id, c.level);
@@ -110,11 +122,13 @@ fn main() {
             rep.tier = Tier::Thorough;
         }
         println!("replaying {} clause={} : {}", path, doc["clause"], doc["what"]);
-        (c.replay)(&rep, &doc["case"]);
+        let rep: &'static Report = Box::leak(Box::new(rep));
+        (c.replay)(rep, &doc["case"]);
         let code = rep.finish();
         println!("replay verdict: {}", if code == 0 { "property holds on this case" } else { "violation reproduced" });
         std::process::exit(code);
     }
-    (c.run)(&rep);
+    let rep: &'static Report = Box::leak(Box::new(rep));
+    (c.run)(rep);
     std::process::exit(rep.finish());
 }
